@@ -158,6 +158,15 @@ def _apply(obj, params, nums, entry):
     return obj.insert_knot(**kw)
 
 
+def _accepted(ctx, tag, obj, params, nums, entry, rc, feats):
+    """an admissible insertion must be carried out, not raise"""
+    try:
+        _apply(obj, params, nums, entry)
+    except Exception as e:
+        return ctx.check('C04.%s.accepted' % tag, False, rc, feats, 'admissible insertion is carried out', repr(e)[:300])
+    return ctx.check('C04.%s.accepted' % tag, True, rc, feats)
+
+
 def _op_features(desc, kvs_before, params, nums, entry, extra=None):
     dirs = [a for a in range(len(params)) if params[a] is not None and nums[a] > 0]
     mults = [K.fmult(kvs_before[a], params[a]) for a in dirs]
@@ -272,7 +281,8 @@ def _e1_case(case, ctx):
             before = S.snapshot(obj)
             feats = _op_features(desc, kvs0, params, nums, entry)
             rc = dict(kind='seq', shape=desc, ops=[dict(params=params, nums=nums)], entry=entry)
-            _apply(obj, params, nums, entry)
+            if not _accepted(ctx, 'insert', obj, params, nums, entry, rc, feats):
+                continue
             _judge_step(ctx, obj, before, d_orig, scale, desc, params, nums, rc, feats)
         if first and len(dirs) == 1:
             first = False
@@ -320,9 +330,13 @@ def _evaluated_variant(ctx, desc, d_orig, scale, kvs0, params, nums):
     _set_sample(obj, ns)
     obj.evaluate()
     len(obj.evalpts)
-    _apply(obj, params, nums, 'wrapper')
     feats = _op_features(desc, kvs0, params, nums, 'wrapper_evaluated')
     rc = dict(kind='evaluated', shape=desc, ops=[dict(params=params, nums=nums)])
+    try:
+        _apply(obj, params, nums, 'wrapper')
+    except Exception as e:
+        ctx.check('C04.insert.evalpts_after', False, rc, feats, 'insertion carried out', repr(e)[:300])
+        return
     _set_sample(obj, ns)
     ep = obj.evalpts
     doms = [R.domain(p, U) for p, U in zip(d_orig['degrees'], d_orig['kvs'])]
@@ -359,11 +373,17 @@ def _run_seq(ctx, desc, ops, entry, check_from=0, tag='insert'):
         params, nums = _norm_op(op, pd)
         e = _entry_at(entry, i)
         before = S.snapshot(obj)
-        _apply(obj, params, nums, e)
-        if i >= check_from:
-            feats = _op_features(desc, before['kvs'], params, nums, e, dict(step=i, history_length=i + 1))
-            rc = dict(kind='seq', shape=desc, ops=[o for o in ops[:i + 1]], entry=entry, tag=tag)
-            _judge_step(ctx, obj, before, d_orig, scale, desc, params, nums, rc, feats, tag=tag)
+        feats = _op_features(desc, before['kvs'], params, nums, e, dict(step=i, history_length=i + 1))
+        rc = dict(kind='seq', shape=desc, ops=[o for o in ops[:i + 1]], entry=entry, tag=tag)
+        if i < check_from:
+            try:
+                _apply(obj, params, nums, e)
+            except Exception:
+                return obj      # reported by the node that judges this step
+            continue
+        if not _accepted(ctx, tag, obj, params, nums, e, rc, feats):
+            return obj
+        _judge_step(ctx, obj, before, d_orig, scale, desc, params, nums, rc, feats, tag=tag)
     return obj
 
 
@@ -406,8 +426,12 @@ def _helper_case(case, ctx):
                 feats = _op_features(desc, kvs0, [u], [r], 'helper')
                 rc = dict(case, only=[0, u, r])
                 cp_in = [list(x) for x in P]
-                new_cp = helpers.knot_insertion(p, list(kv), cp_in, u, num=r)
-                new_kv = helpers.knot_insertion_kv(list(kv), u, span, r)
+                try:
+                    new_cp = helpers.knot_insertion(p, list(kv), cp_in, u, num=r)
+                    new_kv = helpers.knot_insertion_kv(list(kv), u, span, r)
+                except Exception as e:
+                    ctx.check('C04.helper.accepted', False, rc, feats, 'admissible insertion is carried out', repr(e)[:300])
+                    continue
                 exp_kv = sorted(list(kv) + [u] * r)
                 ctx.check('C04.helper.knotvector', list(new_kv) == exp_kv, rc, feats, exp_kv, list(new_kv))
                 if not ctx.check('C04.helper.size', len(new_cp) == len(P) + r and all(len(c) == len(P[0]) for c in new_cp),
@@ -434,7 +458,11 @@ def _helper_case(case, ctx):
                     rows = [[list(P[v + sv * i]) for v in range(sv)] for i in range(su)]
                 else:
                     rows = [[list(P[j + sv * i]) for i in range(su)] for j in range(sv)]
-                new_rows = helpers.knot_insertion(p, list(kv), rows, u, num=r)
+                try:
+                    new_rows = helpers.knot_insertion(p, list(kv), rows, u, num=r)
+                except Exception as e:
+                    ctx.check('C04.helper.accepted', False, rc, feats, 'admissible insertion is carried out', repr(e)[:300])
+                    continue
                 n_new = (su if a == 0 else sv) + r
                 width = sv if a == 0 else su
                 if not ctx.check('C04.helper.size', len(new_rows) == n_new and all(len(row) == width for row in new_rows),
